@@ -19,6 +19,9 @@ def _dispatch(prop: str, tier: str):
     if prop == "C10":
         from . import budget
         return budget.check(tier)
+    if prop == "C18":
+        from . import stratcheck
+        return stratcheck.check(tier)
     if prop == "C20":
         from . import retryaftercheck
         return retryaftercheck.check(tier)
